@@ -114,6 +114,14 @@ func Seq3(yield func(int) bool) {
 	}
 }
 
+// B2I converts a bool to 0 / 1.
+func B2I(b bool) int {
+	if b {
+		return 1
+	}
+	return 0
+}
+
 // Two returns two values from one call (initialisers declaring two names).
 func Two(a, b int) (int, int) { return a + 10, b + 1 }
 
